@@ -31,9 +31,15 @@ fn running_on_valgrind() -> bool {
 }
 /// marker for instruction/address traces (lackey): a store to this address delimits the measured window
 pub static MARKER: AtomicU64 = AtomicU64::new(0);
+/// set by ct.info when VERIF_CT_TRAP=1: mark() then also executes `int3`, which tools/stepper.c (a ptrace single-stepper)
+/// uses to delimit the same window natively
+static TRAP: std::sync::atomic::AtomicBool = std::sync::atomic::AtomicBool::new(false);
 #[inline(never)]
 fn mark(v: u64) {
     MARKER.store(v, Ordering::SeqCst);
+    if TRAP.load(Ordering::Relaxed) {
+        unsafe { core::arch::asm!("int3", options(nostack)) };
+    }
 }
 
 /// run `f` between the markers; returns (result, memcheck reports raised inside the window)
@@ -49,7 +55,10 @@ fn window<R>(f: impl FnOnce() -> R) -> (R, u64) {
 pub fn run(op: &str, e: &Value, ctx: &mut Ctx) -> Result<Value, String> {
     let _ = ctx;
     match op {
-        "ct.info" => Ok(json!({"valgrind": running_on_valgrind(), "marker_addr": format!("{:x}", &MARKER as *const _ as usize)})),
+        "ct.info" => {
+            TRAP.store(std::env::var("VERIF_CT_TRAP").map(|v| v == "1").unwrap_or(false), Ordering::Relaxed);
+            Ok(json!({"valgrind": running_on_valgrind(), "marker_addr": format!("{:x}", &MARKER as *const _ as usize), "trap": TRAP.load(Ordering::Relaxed)}))
+        }
         "ct.run" => {
             // target: the operation; in[0]: secret bytes (32 or 64); in[1]: public bytes
             let target = e["target"].as_str().ok_or("target")?;
